@@ -24,7 +24,7 @@ MANIFEST = {
 
 GRID = [F(0), F(1, 2), F(1), F(2)]
 BOUNDS = {
-    'quick': [(1, 'median'), (2, 'median'), (3, 'median'), (3, 'mean'), (3, 'sum'), (4, 'sum')],
+    'quick': [(1, 'median'), (2, 'median'), (3, 'median'), (3, 'mean'), (3, 'sum'), (4, 'sum'), (4, 'mean')],
     'thorough': [(3, 'median'), (3, 'mean'), (3, 'sum'), (4, 'median'), (4, 'mean'), (4, 'sum'), (5, 'sum')],
 }
 INFO = {
@@ -70,6 +70,34 @@ class SparseDict:
             return default
         miss, v = self.ent[k]
         return symx.ite(symx.mkbool(miss), default, v)
+
+    def __contains__(self, k):
+        if k not in self.ent:
+            return False
+        return bool(symx.sym_not(symx.mkbool(self.ent[k][0])))   # forks on the presence flag
+
+    def __getitem__(self, k):
+        if k in self:
+            return self.ent[k][1]
+        raise KeyError(k)
+
+    def _present(self):
+        return [k for k in self.ent if k in self]
+
+    def keys(self):
+        return self._present()
+
+    def __iter__(self):
+        return iter(self._present())
+
+    def __len__(self):
+        return len(self._present())
+
+    def items(self):
+        return [(k, self.ent[k][1]) for k in self._present()]
+
+    def values(self):
+        return [self.ent[k][1] for k in self._present()]
 
 
 def load_fn():
